@@ -361,6 +361,11 @@ pub fn gen_tag_file(r: &mut StdRng) -> String {
     if r.gen_bool(0.5) {
         ls.push("T1 T2 XY T T1X YX".into());
     }
+    if r.gen_range(0..25) == 0 {
+        // line-ending detection has to look past the usual buffer sizes (tag contents are
+        // normalised to the detected ending)
+        ls.insert(0, "x".repeat([8189usize, 8190, 8191, 8192, 8200, 20_000][r.gen_range(0..6)]));
+    }
     let crlf = r.gen_bool(0.3);
     let mut s = ls.join(if crlf { "\r\n" } else { "\n" });
     if r.gen_bool(0.8) {
